@@ -11,10 +11,10 @@ def run(ctx):
                          "distinct_nontrivial counts distinct queries whose result is a successful computation (not none/panic)")
     regen(ctx, needed=("SizeConfig.lean",))
     proved = prove(ctx, MODULES)
-    run_purefn(ctx, ["size", "rs"], n, oracle_prefixes=("spec_calc_size",))
+    run_purefn(ctx, ["size", "rs"], n, oracle_prefixes=("spec_calc_size", "spec_hint_from_capacity"))
     if (not proved or ctx.disagreements) and not ctx.oracle_failures and ctx.quick():
         ctx.notes.append("proof/correspondence broken: running the thorough-tier search for a failing input")
-        run_purefn(ctx, ["size"], 400000, oracle_prefixes=("spec_calc_size",), profiles=("dev",))
+        run_purefn(ctx, ["size"], 400000, oracle_prefixes=("spec_calc_size", "spec_hint_from_capacity"), profiles=("dev",))
     try:
         from engines.arena import run_fit_search
         run_fit_search(ctx)
